@@ -277,25 +277,45 @@ structure Sender where
   hasEncoder : Bool                    -- `self.__encoder and hasattr(self.__encoder, "target_bitrate")`
   deriving Repr
 
-/-- `_retransmit(sequence_number)`. -/
-def Sender.retransmit (s : Sender) (seq : Nat) : Sender × List Effect :=
+/-- The 16-bit sequence number field of `RtpPacket.serialize` (`pack("!BBHLL", …)`): `struct.error` outside 0..65535. -/
+def seqPackable (n : Int) : Bool := decide (0 ≤ n ∧ n < 65536)
+
+/-- `_retransmit(sequence_number)` with the way the RTX sequence number is advanced as a parameter:
+`wrap_rtx(packet, sequence_number=self.__rtx_sequence_number)`, `self.__rtx_sequence_number = bump(…)`, then
+`packet.serialize(…)` — which raises `struct.error` when the counter has left the 16-bit range (nothing between
+`_retransmit` and `RTCDtlsTransport.__run` catches it: the transport closes) — and `_send_rtp`.  The packets of the
+history have been serialised by `_run_rtp` before: their own fields are in range. -/
+def Sender.retransmitWith (bump : Int → Int) (s : Sender) (seq : Nat) : Outcome (Sender × List Effect) :=
   match Router.dget (seq % RTP_HISTORY_SIZE) s.history with
-  | none => (s, [])
+  | none => .ok (s, [])
   | some pkt =>
     if pkt.sequenceNumber = seq then
       match s.rtxPayloadType with
       | some pt =>
-        ({ s with rtxSequenceNumber := uint16_add s.rtxSequenceNumber 1 },
-         [.retransmit s.id (wrapRtx pkt pt s.rtxSequenceNumber.toNat s.rtxSsrc)])
-      | none => (s, [.retransmit s.id pkt])
-    else (s, [])
+        if seqPackable s.rtxSequenceNumber then
+          .ok ({ s with rtxSequenceNumber := bump s.rtxSequenceNumber },
+               [.retransmit s.id (wrapRtx pkt pt s.rtxSequenceNumber.toNat s.rtxSsrc)])
+        else .crash "struct.error"
+      | none => .ok (s, [.retransmit s.id pkt])
+    else .ok (s, [])
 
-def Sender.retransmitAll (s : Sender) : List Nat → Sender × List Effect
-  | [] => (s, [])
+/-- `for seq in packet.lost: await self._retransmit(seq)`. -/
+def Sender.retransmitAllWith (bump : Int → Int) (s : Sender) : List Nat → Outcome (Sender × List Effect)
+  | [] => .ok (s, [])
   | seq :: rest =>
-    let (s1, e1) := s.retransmit seq
-    let (s2, e2) := s1.retransmitAll rest
-    (s2, e1 ++ e2)
+    match s.retransmitWith bump seq with
+    | .ok (s1, e1) =>
+      match s1.retransmitAllWith bump rest with
+      | .ok (s2, e2) => .ok (s2, e1 ++ e2)
+      | .valueError => .valueError | .crash k => .crash k | .hang => .hang
+    | .valueError => .valueError | .crash k => .crash k | .hang => .hang
+
+/-- The code as it is: `uint16_add(self.__rtx_sequence_number, 1)`. -/
+def Sender.retransmit (s : Sender) (seq : Nat) : Outcome (Sender × List Effect) :=
+  s.retransmitWith (fun n => uint16_add n 1) seq
+
+def Sender.retransmitAll (s : Sender) (lost : List Nat) : Outcome (Sender × List Effect) :=
+  s.retransmitAllWith (fun n => uint16_add n 1) lost
 
 def reportEffects (s : Sender) (reports : List ReceiverInfo) : List Effect :=
   (reports.filter (·.ssrc = s.ssrc)).map fun rep => .rrStats s.id rep.packetsLost rep.jitter rep.fractionLost
@@ -306,7 +326,7 @@ def Sender.handleRtcp (s : Sender) (p : RtcpPacket) : Outcome (Sender × List Ef
   | .rr _ reports => .ok (s, reportEffects s reports)
   | .sr _ _ reports => .ok (s, reportEffects s reports)
   | .rtpfb fmt _ _ lost =>
-    if fmt = RTCP_RTPFB_NACK then .ok (s.retransmitAll lost) else .ok (s, [])
+    if fmt = RTCP_RTPFB_NACK then s.retransmitAll lost else .ok (s, [])
   | .psfb fmt _ _ fci =>
     if fmt = RTCP_PSFB_FIR ∨ fmt = RTCP_PSFB_PLI then .ok ({ s with forceKeyframe := true }, [.keyframe s.id])
     else if fmt = RTCP_PSFB_APP then
